@@ -28,23 +28,39 @@ structure Aux where
 deriving Inhabited
 
 structure St where
-  w : World
+  h : Heap                        -- records by ADDRESS, `__Name` of every live run-time type object (types and `C` classes)
   kinds : List (Nat × Nat)        -- tid ↦ 1 library type | 2 static probe | 3 run-time type
   rcls : List (Nat × String)
   syms : List (Nat × String)      -- tid ↦ symbol of a B/S-bound type object
   aux : List (Nat × Aux) := []    -- run-time types
   nextId : Nat := 1000            -- instance pointers of run-time types are never reused: every construction gets fresh identities
+  addrs : List (Nat × Nat) := []  -- tid ↦ address of the run-time type object (B/S-bound type objects: address = tid)
+  arena : List Nat := []          -- used slots of the harness arena (mode `arena`)
+  nextAddr : Nat := 2000000       -- addresses of malloc'ed type objects: assumed never handed out twice while a memoised pointer to the first dangles
 deriving Inhabited
 
-def St.init : St := { w := { slots := slots, theType := 0, types := [] }, kinds := [], rcls := [], syms := [] }
+def St.init : St := { h := { w := { slots := slots, theType := 0, types := [] }, names := [] }, kinds := [], rcls := [], syms := [] }
+
+/-- numbering of addresses: B/S type objects = their tid; `C` class k = 1000000 + k; arena slot s = 500000 + s; malloc'ed = fresh ≥ 2000000 -/
+def clsAddr (k : Nat) : Nat := 1000000 + k
+def arenaAddr (slot : Nat) : Nat := 500000 + slot
+def nSlot : Nat := 8
+def addrOf (s : St) (tid : Nat) : Nat := ((s.addrs.find? (fun p => p.1 = tid)).map (·.2)).getD tid
+def St.w (s : St) : World := s.h.w
+def St.setW (s : St) (w : World) : St := { s with h := { s.h with w := w } }
+def St.recOf (s : St) (tid : Nat) : Option TypeRec := s.h.w.get (addrOf s tid)
 
 def layout : Layout :=
   { cacheNum := CelloGen.Disp.cacheNum, nBuiltins := CelloGen.Disp.nBuiltins, maxInstances := CelloGen.Disp.maxInstances }
 
 def auxOf (s : St) (tid : Nat) : Option Aux := (s.aux.find? (fun p => p.1 = tid)).map (·.2)
 def setAux (s : St) (tid : Nat) (a : Aux) : St := { s with aux := (tid, a) :: s.aux.filter (fun p => p.1 ≠ tid) }
-def dropType (s : St) (tid : Nat) : St :=
-  { s with w := { s.w with types := s.w.types.filter (fun p => p.1 ≠ tid) }, aux := s.aux.filter (fun p => p.1 ≠ tid) }
+/-- the type object of `tid` is deleted (or abandoned): its record and name go, pointers to it dangle; an arena slot is
+    released only by `X` (`release`) -/
+def dropType (s : St) (tid : Nat) (release : Bool := false) : St :=
+  let a := addrOf s tid
+  { s with h := s.h.delete a, aux := s.aux.filter (fun p => p.1 ≠ tid), addrs := s.addrs.filter (fun p => p.1 ≠ tid),
+           arena := if release then s.arena.filter (fun sl => arenaAddr sl ≠ a) else s.arena }
 
 /-- calloc'ed storage of `Type_Alloc` -/
 def zeroMem : List Word := List.replicate (3 * layout.cells) Word.null
@@ -74,11 +90,23 @@ def clsOf (s : St) (tok : String) : Option Cls :=
     if CelloGen.Disp.declared.any (fun d => d.1 = nm) || probeNames.contains nm then some ⟨0, nm⟩ else none
   else if tok.startsWith "r." then
     match (dropStr tok 2).toNat? with
-    | some k => (s.rcls.find? (fun p => p.1 = k)).map (fun p => ⟨k + 1, p.2⟩)
+    | some k => if s.rcls.any (fun p => p.1 = k) then s.h.resolve (.rt (clsAddr k)) else none
+    | none => none
+  else if tok.startsWith "t." then
+    -- a live run-time TYPE object used as a class: its name is read now
+    match (dropStr tok 2).toNat? with
+    | some tid => if kindOf s tid = 3 then s.h.resolve (.rt (addrOf s tid)) else none
     | none => none
   else none
 
-def clsTok (c : Cls) : String := if c.id = 0 then "b." ++ c.name else "r." ++ toString (c.id - 1)
+/-- a class pointer is printed as the token of the object that lives at its address NOW (`dead`: nothing does) -/
+def clsTok (s : St) (c : Cls) : String :=
+  if c.id = 0 then "b." ++ c.name else
+  let a := c.id - 1
+  if a ≥ clsAddr 0 && a < clsAddr maxC then "r." ++ toString (a - clsAddr 0) else
+  match s.kinds.find? (fun p => p.2 = 3 && addrOf s p.1 = a) with
+  | some p => "t." ++ toString p.1
+  | none => "dead"
 
 def excName : Exc → String
   | .TypeError => "TypeError" | .ValueError => "ValueError" | .ClassError => "ClassError" | .OutOfMemoryError => "OutOfMemoryError"
@@ -98,21 +126,21 @@ def showBool : Outcome Bool → String
 def excOf {α : Type} : Outcome α → String
   | .ok _ => "none" | .raised e => excName e | .ub => "ub"
 
-def dumpRec (t : TypeRec) (memoIds : Bool) : String :=
+def dumpRec (s : St) (t : TypeRec) (memoIds : Bool) : String :=
   let cs := (List.range t.cache.length).filterMap (fun i =>
     match t.cache[i]? with
     | some (some inst) => some s!"{i}:{idx t inst}"
     | _ => none)
   let ms := ((List.range t.entries.length).zip t.entries).filterMap (fun p =>
     match p.2.memo with
-    | some c => some (if memoIds then s!"{p.1}:{clsTok c}" else s!"{p.1}")
+    | some c => some (if memoIds then s!"{p.1}:{clsTok s c}" else s!"{p.1}")
     | none => none)
   s!" c={",".intercalate cs} m={",".intercalate ms} h={if t.hdr then 1 else 0}"
 
 def dump (s : St) (tid : Nat) (memoIds : Bool := true) : String :=
   if kindOf s tid < 2 then "" else
-  match s.w.get tid with
-  | some t => dumpRec t memoIds
+  match s.recOf tid with
+  | some t => dumpRec s t memoIds
   | none => ""
 
 /-- `Name:flags` → (Name, flags) -/
@@ -188,9 +216,10 @@ open DispDrv
 def bad : IO Unit := IO.println "O bad-op"
 
 def lookupOp (s : St) (op : String) (tid : Nat) (cls : Cls) (k : Nat) : IO St := do
-  let some t := s.w.get tid | do bad; return s
+  let a := addrOf s tid
+  let some t := s.w.get a | do bad; return s
   let upper := op = "I" || op = "P" || op = "M" || op = "Q"
-  let self : Self := if upper then .typeObj tid else .obj .good tid
+  let self : Self := if upper then .typeObj a else .obj .good a
   -- an out-of-struct member read is undefined behaviour: never executed on either side
   if (op = "M" || op = "Q" || op = "m" || op = "q") then
     match declared t.entries cls.name with
@@ -205,11 +234,29 @@ def lookupOp (s : St) (op : String) (tid : Nat) (cls : Cls) (k : Nat) : IO St :=
     else if op = "m" then let r := methodAtW s.w self cls k; (r.1, showInst t r.2, Op.methodAt cls k)
     else if op = "Q" then let r := typeImplementsMethodAtW s.w self cls k; (r.1, showBool r.2, Op.implementsMethodAt cls k)
     else let r := implementsMethodAtW s.w self cls k; (r.1, showBool r.2, Op.implementsMethodAt cls k)
-  match selfCheck t mop (w'.get tid) with
-  | some msg => IO.println s!"O MODEL-INCONSISTENT {op} {msg}"
-  | none => pure ()
-  let s' := { s with w := w' }
+  -- the record-level checks hold whenever the record satisfies the invariant (outside KF-C08-class-memo-stale)
+  if invb slots t then
+    match selfCheck t mop (w'.get a) with
+    | some msg => IO.println s!"O MODEL-INCONSISTENT {op} {msg}"
+    | none => pure ()
+  let s' := s.setW w'
   IO.println s!"O {op} {res}{dump s' tid}"
+  return s'
+
+/-- after an operation that changes which type objects exist or how they are named: inside the territory of
+    `C08_world_history` (the write of the name was `safe` and the heap satisfied `okb`) the heap must satisfy `okb` again -/
+def heapCheck (before : St) (safe : Bool) (after : St) (op : String) : IO Unit := do
+  if safe && before.h.okb CelloGen.Disp.cacheNum && !after.h.okb CelloGen.Disp.cacheNum then
+    IO.println s!"O MODEL-INCONSISTENT {op} the heap invariant broke although the write of the name was safe"
+
+/-- a construction at an address, on both levels: `st` is what the word-level `Type_New` left; the heap-level `Heap.construct`
+    (the function of `C08_world_history`) must install the same record; it also re-reads every alias of the address -/
+def installType (s : St) (op : String) (tid addr : Nat) (name : String) (es : List (String × Inst)) (st : Store) : IO St := do
+  let r := s.h.construct layout addr name es
+  if (r.1.w.get addr) ≠ some st.trec then
+    IO.println s!"O MODEL-INCONSISTENT {op} the heap-level construction and the word-level Type_New differ"
+  let s' := setAux (setKind { s with h := r.1, addrs := (tid, addr) :: s.addrs.filter (fun p => p.1 ≠ tid) } tid 3) tid ⟨st.name, st.size, st.rest⟩
+  heapCheck s (s.h.nameWriteSafe addr name) s' op
   return s'
 
 def main (args : List String) : IO Unit := do
@@ -229,7 +276,7 @@ def main (args : List String) : IO Unit := do
       | some k =>
         if k ≥ maxC || s.rcls.any (fun p => p.1 = k) then bad
         else
-          s := { s with rcls := (k, nm) :: s.rcls }
+          s := { s with rcls := (k, nm) :: s.rcls, h := { s.h with names := (clsAddr k, nm) :: s.h.names } }
           IO.println s!"O C {k}"
       | none => bad
     | op :: tidS :: sym :: rest =>
@@ -241,7 +288,8 @@ def main (args : List String) : IO Unit := do
           else
             let t := mkType CelloGen.Disp.cacheNum false (mkEntries row) (op = "B" && sym = "Terminal")
             let ok := if op = "B" then (CelloGen.Disp.declared.find? (fun d => d.1 = sym)).map (·.2) = some row else true
-            s := setKind { s with w := s.w.put tid t } tid (if op = "B" then 1 else 2) sym
+            if kindOf s tid = 3 then s := dropType s tid
+            s := setKind ({ s with addrs := s.addrs.filter (fun p => p.1 ≠ tid) }.setW (s.w.put tid t)) tid (if op = "B" then 1 else 2) sym
             IO.println s!"O {op} {tid} n={row.length} {if ok then "ok" else "bad"}{dump s tid}"
         | _, _ => bad
       else if op = "T" then
@@ -249,18 +297,21 @@ def main (args : List String) : IO Unit := do
         | some tid, some row =>
           match namedRow s row with
           | some named =>
-            if tid ≥ maxT || rest.length > maxRow then bad
+            if tid ≥ maxT || rest.length > maxRow || (kindOf s tid = 3 && row.any (fun p => p.1 = s!"t.{tid}")) then bad
             else
               let es := mkEntries named s.nextId
               s := { s with nextId := s.nextId + row.length + 1 }
+              if kindOf s tid = 3 then s := setKind (dropType s tid) tid 0       -- abandoned: as good as deleted
               match constructAt layout true false zeroMem sym 0 es with
               | (some st, .ok _) =>
                 if typeNew CelloGen.Disp.cacheNum CelloGen.Disp.maxInstances es ≠ .ok st.trec then
                   IO.println "O MODEL-INCONSISTENT T the word-level Type_New and the record-level typeNew differ"
-                s := setAux (setKind { s with w := s.w.put tid st.trec } tid 3) tid ⟨st.name, st.size, st.rest⟩
+                let addr := s.nextAddr
+                s := { s with nextAddr := s.nextAddr + 1 }
+                s ← installType s "T" tid addr sym es st
                 IO.println s!"O T {tid} n={row.length} ok{dump s tid}"
               | (_, .raised e) =>
-                s := setKind (dropType s tid) tid 0
+                s := setKind s tid 0
                 IO.println s!"O T {tid} n={row.length} {excName e}"
               | _ => IO.println s!"O T {tid} n={row.length} ub"
           | none => bad
@@ -270,23 +321,28 @@ def main (args : List String) : IO Unit := do
         match tidS.toNat?, rest with
         | some tid, name :: sizeS :: rowToks =>
           let memO : Option (List Word) :=
-            if sym = "junk" then some junkMem else if ["raw", "root", "gc", "alloc"].contains sym then some zeroMem else none
+            if sym = "junk" || sym = "arena" then some junkMem else if ["raw", "root", "gc", "alloc"].contains sym then some zeroMem else none
           match sizeS.toNat?, parseRow rowToks, memO with
           | some size, some row, some mem =>
             match namedRow s row with
             | some named =>
-              if tid ≥ maxT || rowToks.length > maxRow || size > 1000000 then bad
+              let slot := (List.range nSlot).find? (fun sl => !s.arena.contains sl)
+              if tid ≥ maxT || rowToks.length > maxRow || size > 1000000 || (kindOf s tid = 3 && row.any (fun p => p.1 = s!"t.{tid}"))
+                  || (sym = "arena" && slot.isNone) then bad
               else
                 let es := mkEntries named s.nextId
                 s := { s with nextId := s.nextId + row.length + 1 }
+                if kindOf s tid = 3 then s := setKind (dropType s tid) tid 0     -- abandoned: as good as deleted
                 match constructAt layout true false mem name size es with
                 | (some st, .ok _) =>
                   if st.trec ≠ mkType CelloGen.Disp.cacheNum true es || !invb slots st.trec then
                     IO.println "O MODEL-INCONSISTENT N the constructed record is not the fresh record of the instance list"
-                  s := setAux (setKind { s with w := s.w.put tid st.trec } tid 3) tid ⟨st.name, st.size, st.rest⟩
+                  let addr := if sym = "arena" then arenaAddr (slot.getD 0) else s.nextAddr
+                  s := if sym = "arena" then { s with arena := slot.getD 0 :: s.arena } else { s with nextAddr := s.nextAddr + 1 }
+                  s ← installType s "N" tid addr name es st
                   IO.println s!"O N {tid} n={row.length} ok{dump s tid} z={tailCount st.rest}"
                 | (_, .raised e) =>
-                  s := setKind (dropType s tid) tid 0
+                  s := setKind s tid 0
                   IO.println s!"O N {tid} n={row.length} {excName e}"
                 | _ => IO.println s!"O N {tid} n={row.length} ub"
             | none => bad
@@ -296,11 +352,11 @@ def main (args : List String) : IO Unit := do
         -- W <tid> <name> <size> row… : sym = name; destruct(T); construct_with(T, …) on the words of the live incarnation
         match tidS.toNat?, rest with
         | some tid, sizeS :: rowToks =>
-          match sizeS.toNat?, parseRow rowToks, s.w.get tid, auxOf s tid with
+          match sizeS.toNat?, parseRow rowToks, s.recOf tid, auxOf s tid with
           | some size, some row, some t, some a =>
             match namedRow s row with
             | some named =>
-              if kindOf s tid ≠ 3 || rowToks.length > maxRow || size > 1000000 then bad
+              if kindOf s tid ≠ 3 || rowToks.length > maxRow || size > 1000000 || row.any (fun p => p.1 = s!"t.{tid}") then bad
               else
                 let es := mkEntries named s.nextId
                 s := { s with nextId := s.nextId + row.length + 1 }
@@ -310,10 +366,12 @@ def main (args : List String) : IO Unit := do
                 | .ok _ =>
                   if r.1.trec ≠ mkType CelloGen.Disp.cacheNum t.hdr es || !invb slots r.1.trec || r.1.toRaw.length ≠ st.toRaw.length then
                     IO.println "O MODEL-INCONSISTENT W the re-constructed record is not the fresh record of the new instance list"
-                  s := setAux { s with w := s.w.put tid r.1.trec } tid ⟨r.1.name, r.1.size, r.1.rest⟩
+                  s ← installType s "W" tid (addrOf s tid) sym es r.1
                   IO.println s!"O W {tid} n={row.length} ok{dump s tid} z={tailCount r.1.rest}"
                 | .raised e =>
                   if r.1 ≠ st then IO.println "O MODEL-INCONSISTENT W a refused re-construction changed the object"
+                  if (s.h.construct layout (addrOf s tid) sym es).2 ≠ .raised e then
+                    IO.println "O MODEL-INCONSISTENT W the heap-level construction and the word-level Type_New differ"
                   IO.println s!"O W {tid} n={row.length} {excName e} ok{dump s tid} z={tailCount a.rest}"
                 | .ub => IO.println s!"O W {tid} n={row.length} ub"
             | none => bad
@@ -325,8 +383,8 @@ def main (args : List String) : IO Unit := do
         | some tid =>
           if kindOf s tid = 0 || !(kindOf s 0 = 1 && symOf s 0 = "Type") || (sym ≠ "copy" && sym ≠ "assign") then bad
           else
-            let r := instanceW s.w (.typeObj tid) ⟨0, if sym = "copy" then "Copy" else "Assign"⟩
-            s := { s with w := r.1 }
+            let r := instanceW s.w (.typeObj (addrOf s tid)) ⟨0, if sym = "copy" then "Copy" else "Assign"⟩
+            s := s.setW r.1
             let res := match r.2 with
               | .ok (some c) => (match memberAt c 0 with | .ok true => "ValueError" | _ => "other")
               | .ok none => "other"
@@ -339,8 +397,8 @@ def main (args : List String) : IO Unit := do
         | some tid, some tid2 =>
           if kindOf s tid = 0 || kindOf s tid2 = 0 then bad
           else
-            let r := castW castCls s.w (.obj .good tid) tid2
-            s := { s with w := r.1 }
+            let r := castW castCls s.w (.obj .good (addrOf s tid)) (addrOf s tid2)
+            s := s.setW r.1
             let res := match r.2 with | .ok .self => "self" | .ok .custom => "custom" | .raised e => excName e | .ub => "ub"
             IO.println s!"O K {res}{dump s tid}"
         | _, _ => bad
@@ -350,25 +408,36 @@ def main (args : List String) : IO Unit := do
         | some tid, [ctok] =>
           match clsOf s ctok with
           | some cls =>
+            let a := addrOf s tid
             if kindOf s tid = 0 then bad
             else if tidS = "nontype" then
               if symOf s tid = "Type" then bad
               else
-                let self : Self := .obj .good tid
+                let self : Self := .obj .good a
                 let r1 := typeScanW s.w self cls
                 let r2 := typeImplementsMethodAtW r1.1 self cls 0
-                s := { s with w := r2.1 }
+                s := s.setW r2.1
                 IO.println s!"O E nontype {excOf r1.2} {excOf r2.2} TypeError TypeError"
+            else if tidS = "nullcls" then
+              match s.w.get a with
+              | some t =>
+                let r := scanNull t
+                match r.2 with
+                | .ok v =>
+                  s := s.setW (s.w.put a r.1)
+                  IO.println s!"O E nullcls {showOptInst t (.ok v)} {if v.isSome then "1" else "0"}{dump s tid}"
+                | _ => IO.println s!"O E nullcls ub ub{dump s tid}"
+              | none => bad
             else
-              let selfO : Option Self := if tidS = "null" then some .null else if tidS = "dead" then some (.obj .dead tid)
-                else if tidS = "bad" then some (.obj .bad tid) else none
+              let selfO : Option Self := if tidS = "null" then some .null else if tidS = "dead" then some (.obj .dead a)
+                else if tidS = "bad" then some (.obj .bad a) else none
               match selfO with
               | some self =>
                 let r1 := instanceW s.w self cls
                 let r2 := implementsW r1.1 self cls
                 let r3 := methodAtW r2.1 self cls 0
-                let r4 := castW castCls r3.1 self tid
-                s := { s with w := r4.1 }
+                let r4 := castW castCls r3.1 self a
+                s := s.setW r4.1
                 IO.println s!"O E {tidS} {excOf r1.2} {excOf r2.2} {excOf r3.2} {excOf r4.2}"
               | none => bad
           | none => bad
@@ -377,13 +446,13 @@ def main (args : List String) : IO Unit := do
         -- H <tid> <nthreads> <rounds> <cls>… : sym = nthreads
         match tidS.toNat?, sym.toNat?, rest with
         | some tid, some nth, rS :: ctoks =>
-          match rS.toNat?, ctoks.mapM (clsOf s), s.w.get tid with
+          match rS.toNat?, ctoks.mapM (clsOf s), s.recOf tid with
           | some rounds, some classes, some t =>
-            if classes.isEmpty || nth < 1 || nth > 64 || rounds < 1 || rounds > 100000 then bad
+            if classes.isEmpty || nth < 1 || nth > 64 || rounds < 1 || rounds > 100000 || kindOf s tid = 0 then bad
             else
               let (t', ok) := simulate t nth classes (tid * 1000003 + nth * 7919 + rounds)
               if !ok then IO.println "O MODEL-INCONSISTENT H the interleaved step machine broke the invariant or returned a non-declared instance"
-              s := { s with w := s.w.put tid t' }
+              s := s.setW (s.w.put (addrOf s tid) t')
               IO.println s!"O H n={nth * rounds * classes.length} bad=0{dump s tid false}"
           | _, _, _ => bad
         | _, _, _ => bad
@@ -395,8 +464,8 @@ def main (args : List String) : IO Unit := do
             -- the lookup happens in Type's record: type number 0 must be bound to the library's `Type`
             if !(kindOf s 0 = 1 && symOf s 0 = "Type") then bad
             else
-              let r := instanceW s.w (.typeObj tid) cls
-              s := { s with w := r.1 }
+              let r := instanceW s.w (.typeObj (addrOf s tid)) cls
+              s := s.setW r.1
               IO.println s!"O J {showOptInst ((s.w.get 0).getD default) r.2}{dump s tid}"
           else s ← lookupOp s op tid cls 0
         | _, _ => bad
@@ -414,17 +483,19 @@ def main (args : List String) : IO Unit := do
         | some tid =>
           if kindOf s tid ≠ 3 then bad
           else
-            s := setKind (dropType s tid) tid 0
+            let s0 := s
+            s := setKind (dropType s tid true) tid 0
+            heapCheck s0 true s "X"
             IO.println s!"O X {tid} none"
         | none => bad
       else if op = "R" || op = "D" then
         match tidS.toNat? with
         | some tid =>
-          match s.w.get tid with
+          match s.recOf tid with
           | some t =>
             if kindOf s tid = 0 then bad
             else
-              if op = "R" then s := { s with w := s.w.put tid (reset t) }
+              if op = "R" then s := s.setW (s.w.put (addrOf s tid) (reset t))
               IO.println s!"O {op}{dump s tid}"
           | none => bad
         | none => bad
